@@ -225,21 +225,22 @@ class Pipe(BranchWInternalsComponent):
                 p_from = node_pit[from_nodes, PAMB] + node_pit[from_nodes, PINIT]
                 p_to = node_pit[to_nodes, PAMB] + node_pit[to_nodes, PINIT]
                 p_mean = np.where(p_from == p_to, p_from, 2 / 3 * (p_from ** 3 - p_to ** 3) / (p_from ** 2 - p_to ** 2))
-                factor = NORMAL_PRESSURE * node_pit[m_nodes, TINIT_NODE] / NORMAL_TEMPERATURE
+                # temperatures at the ends of the sections (m_nodes are branch rows, not node rows)
+                t_from = node_pit[from_nodes, TINIT_NODE]
+                t_to = node_pit[to_nodes, TINIT_NODE]
+                t_mean = (t_from + t_to) / 2
 
                 args_from, args_to, args_mean = [p_from], [p_to], [p_mean]
                 if (hasattr(fluid.all_properties["compressibility"], "allow_2d")
                         and fluid.all_properties["compressibility"].allow_2d):
                     # TODO: this is only allowed without temperature calculation (assumed for gases)
-                    t_from = node_pit[from_nodes, TINIT_NODE]
-                    t_to = node_pit[to_nodes, TINIT_NODE]
                     args_from.append(t_from)
                     args_to.append(t_to)
-                    args_mean.append((t_from + t_to) / 2)
+                    args_mean.append(t_mean)
 
-                normfactor_mean = factor * fluid.get_compressibility(*args_mean) / p_mean
-                normfactor_from = factor * fluid.get_compressibility(*args_from) / p_from
-                normfactor_to = factor * fluid.get_compressibility(*args_to) / p_to
+                normfactor_mean = NORMAL_PRESSURE * t_mean / NORMAL_TEMPERATURE * fluid.get_compressibility(*args_mean) / p_mean
+                normfactor_from = NORMAL_PRESSURE * t_from / NORMAL_TEMPERATURE * fluid.get_compressibility(*args_from) / p_from
+                normfactor_to = NORMAL_PRESSURE * t_to / NORMAL_TEMPERATURE * fluid.get_compressibility(*args_to) / p_to
 
                 v_pipe_data_mean = v_pipe_data * normfactor_mean
                 v_pipe_data_from = v_pipe_data * normfactor_from
